@@ -142,6 +142,28 @@ def _judge_special(rng, tag):
         if not np.allclose(oa, ob, rtol=1e-10, atol=1e-10) or not np.allclose(ea.reservoir.state(), eb.reservoir.state(), atol=1e-10):
             out.append(_viol("esn-run:state-not-advanced", "ESN(feedback=%s): chunked run differs from the single run" % fb,
                              {"tag": tag, "kind": "esn", "fb": fb, "cut": cut}, oa.tolist(), ob.tolist()))
+    # ESN whose reservoir keeps hidden memory (NVAR store): ESN.run carries only the states over (open finding)
+    from reservoirpy.nodes import NVAR, Ridge, Delay
+    def mk_nv(t):
+        return ESN(reservoir=NVAR(delay=2, order=1, strides=1, name="nv%s_%s" % (tag, t)), readout=Ridge(ridge=1.0, name="nvo%s_%s" % (tag, t)), name="nvesn%s_%s" % (tag, t))
+    na, nb = mk_nv("a"), mk_nv("b")
+    for e in (na, nb):
+        e.fit(X, Y); e.reservoir.reset(); e.readout.reset()
+        e.reservoir.set_param("store", np.zeros_like(e.reservoir.store))
+    oa = na.run(X); ob = np.vstack([nb.run(X[a:b]) for a, b in pieces])
+    if not np.allclose(oa, ob, rtol=1e-10, atol=1e-10):
+        out.append(_viol("esn-run:hidden-memory-not-advanced", "ESN with an NVAR reservoir: chunked run differs from the single run (the store is not carried over)",
+                         {"tag": tag, "kind": "esn-nvar", "cut": cut}, oa.tolist(), ob.tolist()))
+    # Delay must not alias the caller's arrays: successive chunks passed through one re-used buffer array
+    da, db = Delay(delay=2, name="dl%s_a" % tag), Delay(delay=2, name="dl%s_b" % tag)
+    wa = da.run(X[:8])
+    buf = np.empty((2, d)); parts = []
+    for k in range(4):
+        buf[:] = X[2 * k:2 * k + 2]
+        parts.append(db.run(buf))
+    if not np.array_equal(wa, np.vstack(parts)):
+        out.append(_viol("delay:buffer-aliases-caller-array", "Delay: chunks passed through a re-used input array give different outputs than the single run",
+                         {"tag": tag, "kind": "delay-alias"}, wa.tolist(), np.vstack(parts).tolist()))
     # online nodes and an online model: learn_every = 1 any cut; learn_every = k cuts at multiples of k
     for cls, kw in ((RLS, {}), (LMS, {"alpha": 0.125})):
         for k, pcs in ((1, pieces), (3, [(0, 3), (3, 9)])):
